@@ -303,6 +303,234 @@ Proof.
     + destruct (has_open_ex _ _ H) as (p0 & Hin & E). exists p0. split; [|exact E]. cbn. rewrite !in_app_iff. auto.
 Qed.
 
+(* ---- what is "handed to the buffer": g_offered grows only by the arguments of
+        an accepted submission or of a scripted yield accepted by an open producer ---- *)
+Definition new_offers (s : state) (e : event) : list (nat * nat) :=
+  if is_dead s then [] else
+  match e with
+  | Submit p k | FPut p k =>
+      if existsb (Nat.eqb p) (seen s) then [] else map (fun x => (p, x)) (imm_args k)
+  | PYield p x => if open_here s p then [(p, x)] else []
+  | _ => []
+  end.
+
+Definition keeps_off (s : state) (r : state * list obs) : Prop :=
+  g_offered (gh (fst r)) = g_offered (gh s).
+
+Lemma run_func0_off s ins : keeps_off s (run_func0 s ins).
+Proof. unfold keeps_off, run_func0. destruct ins; reflexivity. Qed.
+
+Lemma continue_round_off s ins ld : keeps_off s (continue_round s ins ld).
+Proof.
+  unfold keeps_off, continue_round. destruct (load_all (ld ++ q s)) as [[rem ys] fs].
+  destruct (unfinished s - length (q s) =? 0); destruct rem; cbn [andb];
+    try destruct (wants_cancel _); try reflexivity; try (rewrite run_func0_off; reflexivity).
+Qed.
+
+Lemma start_round_off s : keeps_off s (start_round s).
+Proof. unfold keeps_off, start_round. destruct (q s); [reflexivity|]. rewrite continue_round_off. reflexivity. Qed.
+
+Lemma run_func_off s ins : keeps_off s (run_func s ins).
+Proof.
+  unfold keeps_off, run_func. destruct ins; [|reflexivity].
+  destruct (release s) as [s1 o1] eqn:E. unfold end_round.
+  pose proof (start_round_off s1) as H. destruct (start_round s1) as [s2 o2]. unfold keeps_off in H; cbn [fst] in *.
+  rewrite H. unfold release in E. inversion E; reflexivity.
+Qed.
+
+Lemma load_one_off s ins p : keeps_off s (load_one s ins p).
+Proof. unfold keeps_off, load_one. destruct (p_fin p); [rewrite continue_round_off|]; reflexivity. Qed.
+
+Lemma after_gather_off s ins g : keeps_off s (after_gather s ins g).
+Proof. destruct g; cbn [after_gather]; [reflexivity|apply load_one_off|apply run_func_off|apply run_func_off]. Qed.
+
+Lemma on_put_off s : keeps_off s (on_put s).
+Proof.
+  unfold on_put. destruct (dm s); try reflexivity.
+  - apply start_round_off.
+  - destruct g; try reflexivity. destruct (q s); reflexivity.
+  - destruct (q s); [reflexivity|]. unfold keeps_off. rewrite load_one_off. reflexivity.
+Qed.
+
+Lemma offered_step s e :
+  g_offered (gh (fst (step s e))) = g_offered (gh s) ++ new_offers s e.
+Proof.
+  unfold step, new_offers. destruct (is_dead s); [rewrite app_nil_r; reflexivity|].
+  assert (K : forall r, keeps_off s r -> g_offered (gh (fst r)) = g_offered (gh s) ++ []) by (intros r H; rewrite app_nil_r; exact H).
+  destruct e.
+  - unfold do_put. destruct (existsb (Nat.eqb p) (seen s)); [rewrite app_nil_r; reflexivity|]. rewrite on_put_off. reflexivity.
+  - unfold do_feed. destruct (open_here s p); cbn [negb]; [|rewrite app_nil_r; reflexivity].
+    destruct (dm s); try reflexivity.
+    + destruct (load_all (map (feed_if p (AY x)) ld)) as [[rem ys] fs]. destruct rem; [rewrite after_gather_off|]; reflexivity.
+    + destruct ((pid p0 =? p) && accepts p0); [rewrite load_one_off|]; reflexivity.
+  - unfold do_feed. destruct (open_here s p); cbn [negb]; [|rewrite app_nil_r; reflexivity].
+    destruct (dm s); try reflexivity.
+    + destruct (load_all (map (feed_if p AF) ld)) as [[rem ys] fs]. destruct rem; [rewrite after_gather_off|]; reflexivity.
+    + destruct ((pid p0 =? p) && accepts p0); [rewrite load_one_off|]; reflexivity.
+  - unfold do_feed. destruct (open_here s p); cbn [negb]; [|rewrite app_nil_r; reflexivity].
+    destruct (dm s); try reflexivity.
+    + destruct (load_all (map (feed_if p AE) ld)) as [[rem ys] fs]. destruct rem; [rewrite after_gather_off|]; reflexivity.
+    + destruct ((pid p0 =? p) && accepts p0); [rewrite load_one_off|]; reflexivity.
+  - apply K. unfold keeps_off, do_advance. destruct (dm s); try reflexivity.
+    + destruct g; try reflexivity. destruct (d <=? now s + dt)%N; reflexivity.
+    + destruct (d <=? now s + dt)%N; [|reflexivity].
+      match goal with |- context [run_func ?a ?b] => pose proof (run_func_off a b) as H; destruct (run_func a b) end. exact H.
+  - apply K. unfold keeps_off, do_wait. destruct (existsb (Nat.eqb w) (wseen s)); [reflexivity|].
+    unfold wait_core. match goal with |- context [unfinished ?x =? 0] => destruct (unfinished x =? 0) end; [|reflexivity].
+    cbn [dm set_gh set_wseen]. destruct (dm s); try (destruct (evset _); reflexivity).
+    + destruct g; try (destruct (evset _); reflexivity). destruct cancel; reflexivity.
+    + destruct cancel; [|reflexivity]. rewrite run_func_off. reflexivity.
+  - apply K. unfold keeps_off, do_fn_end. destruct (dm s); try reflexivity.
+    match goal with |- context [release ?x] => destruct (release x) as [s2 o1] eqn:E end.
+    unfold release in E. inversion E; subst. unfold end_round.
+    match goal with |- context [start_round ?x] => pose proof (start_round_off x) as H; destruct (start_round x) end. exact H.
+  - apply K. unfold keeps_off, do_fn_end. destruct (dm s); try reflexivity.
+    pose proof (continue_round_off s ins []) as H. destruct (continue_round s ins []). exact H.
+  - rewrite app_nil_r; reflexivity.
+  - rewrite app_nil_r; reflexivity.
+  - unfold do_put. destruct (existsb (Nat.eqb p) (seen s)); [rewrite app_nil_r; reflexivity|]. rewrite on_put_off. reflexivity.
+  - apply K. unfold keeps_off, do_fn_end. destruct (dm s); try reflexivity.
+    match goal with |- context [release ?x] => destruct (release x) as [s2 o1] eqn:E end.
+    unfold release in E. inversion E; subst.
+    match goal with |- context [continue_round ?x ?y ?z] => pose proof (continue_round_off x y z) as H; destruct (continue_round x y z) end. exact H.
+Qed.
+
+
+(* ---- (1) delivered = successful sets of the trace ------------------------------ *)
+Definition ok_sets (o : list obs) : list nat :=
+  flat_map (fun x => match x with FnEnd _ true set => set | _ => [] end) o.
+
+Definition keeps_del (s : state) (r : state * list obs) : Prop :=
+  g_delivered (gh (fst r)) = g_delivered (gh s) /\ ok_sets (snd r) = [].
+
+Lemma ok_sets_app a b : ok_sets (a ++ b) = ok_sets a ++ ok_sets b.
+Proof. unfold ok_sets. apply flat_map_app. Qed.
+
+Lemma ok_sets_wrets (ws : list waiter) t k : ok_sets (map (fun w => WaitRet (wid w) t k) ws) = [].
+Proof. induction ws; simpl; auto. Qed.
+
+Lemma release_del s : keeps_del s (release s).
+Proof. unfold keeps_del, release; cbn. split; [reflexivity|apply ok_sets_wrets]. Qed.
+
+Lemma run_func0_del s ins : keeps_del s (run_func0 s ins).
+Proof.
+  unfold run_func0. destruct ins; [|split; reflexivity].
+  pose proof (release_del s) as H. destruct (release s). exact H.
+Qed.
+
+Lemma continue_round_del s ins ld : keeps_del s (continue_round s ins ld).
+Proof.
+  unfold continue_round. destruct (load_all (ld ++ q s)) as [[rem ys] fs].
+  destruct (unfinished s - length (q s) =? 0); destruct rem; cbn [andb];
+    try destruct (wants_cancel _); try (split; reflexivity);
+    match goal with |- keeps_del _ (run_func0 ?a ?b) => destruct (run_func0_del a b) as [H1 H2]; split; [rewrite H1; reflexivity|exact H2] end.
+Qed.
+
+Lemma start_round_del s : keeps_del s (start_round s).
+Proof.
+  unfold start_round. destruct (q s); [split; reflexivity|].
+  match goal with |- keeps_del _ (continue_round ?a ?b ?c) => destruct (continue_round_del a b c) as [H1 H2]; split; [rewrite H1; reflexivity|exact H2] end.
+Qed.
+
+Lemma run_func_del s ins : keeps_del s (run_func s ins).
+Proof.
+  unfold run_func. destruct ins; [|split; reflexivity].
+  destruct (release_del s) as [R1 R2]. destruct (release s) as [s1 o1]. unfold end_round.
+  destruct (start_round_del s1) as [S1 S2]. destruct (start_round s1) as [s2 o2]. unfold keeps_del. cbn [fst snd] in *.
+  split; [rewrite S1, R1; reflexivity|]. rewrite ok_sets_app, R2, S2. reflexivity.
+Qed.
+
+Lemma load_one_del s ins p : keeps_del s (load_one s ins p).
+Proof.
+  unfold load_one. destruct (p_fin p); [|split; reflexivity].
+  match goal with |- keeps_del _ (continue_round ?a ?b ?c) => destruct (continue_round_del a b c) as [H1 H2]; split; [rewrite H1; reflexivity|exact H2] end.
+Qed.
+
+Lemma after_gather_del s ins g : keeps_del s (after_gather s ins g).
+Proof. destruct g; cbn [after_gather]; [split; reflexivity|apply load_one_del|apply run_func_del|apply run_func_del]. Qed.
+
+Lemma on_put_del s : keeps_del s (on_put s).
+Proof.
+  unfold on_put. destruct (dm s); try (split; reflexivity).
+  - apply start_round_del.
+  - destruct g; try (split; reflexivity). destruct (q s); split; reflexivity.
+  - destruct (q s); [split; reflexivity|].
+    match goal with |- keeps_del _ (load_one ?a ?b ?c) => destruct (load_one_del a b c) as [H1 H2]; split; [rewrite H1; reflexivity|exact H2] end.
+Qed.
+
+Lemma do_feed_del s n a : keeps_del s (do_feed s n a).
+Proof.
+  unfold do_feed. destruct (open_here s n); cbn [negb]; [|split; reflexivity].
+  destruct (dm s); try (split; reflexivity).
+  - destruct (load_all (map (feed_if n a) ld)) as [[rem ys] fs]. destruct rem; [|split; reflexivity].
+    match goal with |- keeps_del _ (after_gather ?a ?b ?c) => destruct (after_gather_del a b c) as [H1 H2]; split; [rewrite H1; reflexivity|exact H2] end.
+  - destruct ((pid p =? n) && accepts p); [|split; reflexivity].
+    match goal with |- keeps_del _ (load_one ?a ?b ?c) => destruct (load_one_del a b c) as [H1 H2]; split; [rewrite H1; reflexivity|exact H2] end.
+Qed.
+
+Lemma do_put_del s p k c : keeps_del s (do_put s p k c).
+Proof.
+  unfold do_put. destruct (existsb (Nat.eqb p) (seen s)); [split; reflexivity|].
+  match goal with |- keeps_del _ (on_put ?a) => destruct (on_put_del a) as [H1 H2]; split; [rewrite H1; destruct c; reflexivity|exact H2] end.
+Qed.
+
+Lemma do_advance_del s dt : keeps_del s (do_advance s dt).
+Proof.
+  unfold do_advance. destruct (dm s); try (split; reflexivity).
+  - destruct g; try (split; reflexivity). destruct (d <=? now s + dt)%N; split; reflexivity.
+  - destruct (d <=? now s + dt)%N; [|split; reflexivity].
+    match goal with |- context [run_func ?a ?b] => destruct (run_func_del a b) as [H1 H2]; destruct (run_func a b) end.
+    split; [exact H1|exact H2].
+Qed.
+
+Lemma do_wait_del s w c : keeps_del s (do_wait s w c).
+Proof.
+  unfold do_wait. destruct (existsb (Nat.eqb w) (wseen s)); [split; reflexivity|].
+  unfold wait_core. match goal with |- context [unfinished ?x =? 0] => destruct (unfinished x =? 0) end; [|split; reflexivity].
+  cbn [dm set_gh set_wseen]. destruct (dm s); try (destruct (evset _); split; reflexivity).
+  - destruct g; try (destruct (evset _); split; reflexivity). destruct c; split; reflexivity.
+  - destruct c; [|split; reflexivity].
+    match goal with |- keeps_del _ (run_func ?a ?b) => destruct (run_func_del a b) as [H1 H2]; split; [rewrite H1; reflexivity|exact H2] end.
+Qed.
+
+
+
+(* ---- waiters: where they come from ------------------------------------------------ *)
+Definition wfrom (ws : list waiter) (w0 : waiter) : Prop :=
+  exists w1, In w1 ws /\ wid w1 = wid w0 /\ wbefore w1 = wbefore w0.
+Definition wsub (ws ws0 : list waiter) : Prop := forall w, In w ws -> wfrom ws0 w.
+
+Lemma wfrom_in ws w : In w ws -> wfrom ws w.
+Proof. intros H. exists w. auto. Qed.
+Lemma wsub_refl ws : wsub ws ws.
+Proof. intros w H. apply wfrom_in, H. Qed.
+Lemma wfrom_sub ws ws0 w : wfrom ws w -> wsub ws ws0 -> wfrom ws0 w.
+Proof.
+  intros (w1 & Hin & E1 & E2) Hs. destruct (Hs w1 Hin) as (w2 & Hin2 & E3 & E4).
+  exists w2. split; [exact Hin2|]. split; congruence.
+Qed.
+Lemma wsub_trans a b c : wsub a b -> wsub b c -> wsub a c.
+Proof. intros H1 H2 w Hin. eapply wfrom_sub; eauto. Qed.
+Lemma wsub_filter f ws : wsub (filter f ws) ws.
+Proof. intros w H. apply filter_In in H as [H _]. apply wfrom_in, H. Qed.
+Lemma wsub_pass ws : wsub (join_pass ws) ws.
+Proof.
+  intros w H. unfold join_pass in H. apply in_map_iff in H as (w1 & <- & Hin). exists w1. auto.
+Qed.
+Lemma wsub_app_l a b : wsub a (a ++ b).
+Proof. intros w H. apply wfrom_in, in_or_app. auto. Qed.
+
+Lemma release_shape s :
+  snd (release s) = map (fun w => WaitRet (wid w) (now s) (nok s)) (filter is_onevent (waiters s)) /\
+  waiters (fst (release s)) = filter is_joining (waiters s).
+Proof. unfold release; cbn. auto. Qed.
+
+Lemma pid_feed_if n a p : pid (feed_if n a p) = pid p.
+Proof.
+  unfold feed_if. destruct ((pid p =? n) && accepts p); [|reflexivity].
+  destruct a; cbn [feed pid]; try reflexivity. destruct (single p); reflexivity.
+Qed.
+
 Lemma perm_snoc {A} (p : A) r : Permutation (p :: r) (r ++ [p]).
 Proof. apply Permutation_cons_append. Qed.
 Lemma perm_mid {A} (a b c : list A) : Permutation ((a ++ b) ++ c) ((a ++ c) ++ b).
@@ -408,6 +636,146 @@ Proof.
   - apply load_one_post; exact HC.
   - apply run_func_post; exact HC.
   - apply run_func_post; exact HC.
+Qed.
+
+
+(* ---- what holds whenever a wait() returns --------------------------------------------
+   Every WaitRet of a macro step is emitted by [release] (event.set()) on some
+   intermediate state sr in which the round's input set is empty (nothing loaded
+   is undelivered) and the producers the buffer still holds are exactly those
+   queued, q sr; the returning waiter w0 either passed q.join() in this very
+   step (then q sr = []), or was already past it when the step began (then it is
+   one of the waiters of the state the helper started from, and the queue has
+   the same producer ids as then).  P at sr is what instances turn into "all
+   arguments of the producers submitted before that wait() are delivered". *)
+  Definition rets_left (ws0 : list waiter) (r : state * list obs) : Prop :=
+    forall w t n, In (WaitRet w t n) (snd r) ->
+      exists sr w0, P (seen sr) (gh sr) [] (q sr) /\ wid w0 = w /\ q sr = [] /\ wfrom ws0 w0 /\
+        g_offered (gh sr) = g_offered (gh (fst r)) /\ g_delivered (gh sr) = g_delivered (gh (fst r)).
+
+  Definition rets_ok (ws0 : list waiter) (qp : list nat) (r : state * list obs) : Prop :=
+    forall w t n, In (WaitRet w t n) (snd r) ->
+      exists sr w0, P (seen sr) (gh sr) [] (q sr) /\ wid w0 = w /\
+        ((q sr = [] /\ wfrom ws0 w0) \/ (In w0 ws0 /\ is_onevent w0 = true /\ map pid (q sr) = qp)) /\
+        g_offered (gh sr) = g_offered (gh (fst r)) /\ g_delivered (gh sr) = g_delivered (gh (fst r)).
+
+Lemma rets_left_sub ws1 ws0 r : rets_left ws1 r -> wsub ws1 ws0 -> rets_left ws0 r.
+Proof.
+  intros H Hs w t n Hin. destruct (H w t n Hin) as (sr & w0 & A & B & C & D & E & F).
+  exists sr, w0. repeat split; auto. eapply wfrom_sub; eauto.
+Qed.
+
+Lemma rets_left_ok ws0 qp r : rets_left ws0 r -> rets_ok ws0 qp r.
+Proof.
+  intros H w t n Hin. destruct (H w t n Hin) as (sr & w0 & A & B & C & D & E & F).
+  exists sr, w0. repeat split; auto.
+Qed.
+
+Lemma rets_left_nil ws0 s' : rets_left ws0 (s', []).
+Proof. intros w t n []. Qed.
+Lemma rets_ok_nil ws0 qp s' : rets_ok ws0 qp (s', []).
+Proof. intros w t n []. Qed.
+
+Lemma rets_left_final ws0 s1 s2 o :
+  rets_left ws0 (s1, o) -> g_offered (gh s2) = g_offered (gh s1) -> g_delivered (gh s2) = g_delivered (gh s1) ->
+  rets_left ws0 (s2, o).
+Proof.
+  intros H E1 E2 w t n Hin. destruct (H w t n Hin) as (sr & w0 & A & B & C & D & E & F).
+  exists sr, w0. cbn [fst] in *. repeat split; auto; congruence.
+Qed.
+Lemma rets_ok_final ws0 qp s1 s2 o :
+  rets_ok ws0 qp (s1, o) -> g_offered (gh s2) = g_offered (gh s1) -> g_delivered (gh s2) = g_delivered (gh s1) ->
+  rets_ok ws0 qp (s2, o).
+Proof.
+  intros H E1 E2 w t n Hin. destruct (H w t n Hin) as (sr & w0 & A & B & C & D & E).
+  exists sr, w0. cbn [fst] in *. repeat split; auto; congruence.
+Qed.
+Lemma rets_ok_app ws0 qp s' o1 o2 : rets_ok ws0 qp (s', o1) -> rets_ok ws0 qp (s', o2) -> rets_ok ws0 qp (s', o1 ++ o2).
+Proof. intros H1 H2 w t n Hin. cbn [snd] in Hin. apply in_app_or in Hin as [Hin|Hin]; [apply (H1 w t n Hin)|apply (H2 w t n Hin)]. Qed.
+
+(* the first release of a helper: on the state it was called with *)
+Lemma release_rets s s' :
+  P (seen s) (gh s) [] (q s) ->
+  g_offered (gh s') = g_offered (gh s) -> g_delivered (gh s') = g_delivered (gh s) ->
+  rets_ok (waiters s) (map pid (q s)) (s', snd (release s)).
+Proof.
+  intros HC E1 E2 w t n Hin. cbn [snd] in Hin. destruct (release_shape s) as [Ho _]. rewrite Ho in Hin.
+  apply in_map_iff in Hin as (w0 & E & Hin). inversion E; subst. apply filter_In in Hin as [Hin Hon].
+  exists s, w0. split; [exact HC|]. split; [reflexivity|]. split; [right; auto|]. cbn [fst]. auto.
+Qed.
+
+Lemma run_func0_rets s ins : P (seen s) (gh s) ins (q s) -> q s = [] -> rets_left (waiters s) (run_func0 s ins).
+Proof.
+  intros HC Hq. unfold run_func0. destruct ins as [|x r].
+  - pose proof (release_facts s) as F. pose proof (release_shape s) as [Ho _].
+    destruct (release s) as [s1 o]. cbn [fst snd] in *. destruct F as (F1 & F2 & F3 & F4 & F5 & F6 & F7 & F8).
+    intros w t n Hin. cbn [snd] in Hin. rewrite Ho in Hin.
+    apply in_map_iff in Hin as (w0 & E & Hin). inversion E; subst. apply filter_In in Hin as [Hin _].
+    exists s, w0. cbn [fst gh set_dm]. repeat split; auto. apply wfrom_in, Hin.
+  - intros w t n [H|[]]. discriminate.
+Qed.
+
+Lemma continue_round_rets s ins ld : P (seen s) (gh s) ins (q s ++ ld) -> rets_left (waiters s) (continue_round s ins ld).
+Proof.
+  intros HC. unfold continue_round.
+  set (u := unfinished s - length (q s)).
+  destruct (load_all (ld ++ q s)) as [[rem ys] fs] eqn:El.
+  assert (HC1 : P (seen s) (gh_load (gh s) ys fs) (set_addl ys ins) rem).
+  { apply (P_load (seen s) (gh s) ins [] (ld ++ q s) rem ys fs); [|exact El].
+    cbn [app]. eapply P_perm; [|exact HC]. apply Permutation_app_comm. }
+  set (s2 := if u =? 0 then _ else _).
+  assert (Hgh : gh s2 = gh s) by (unfold s2; destruct (u =? 0); reflexivity).
+  assert (Hq : q s2 = []) by (unfold s2; destruct (u =? 0); reflexivity).
+  assert (Hsn : seen s2 = seen s) by (unfold s2; destruct (u =? 0); reflexivity).
+  assert (Hw : wsub (waiters s2) (waiters s)) by (unfold s2; destruct (u =? 0); cbn; [apply wsub_pass|apply wsub_refl]).
+  destruct rem as [|p rem]; [|apply rets_left_nil].
+  destruct ((u =? 0) && wants_cancel (waiters (set_q s [] u))); [|apply rets_left_nil].
+  eapply rets_left_sub; [apply run_func0_rets|].
+  - cbn [load_gh gh set_gh q seen]. rewrite Hq, Hgh, Hsn. exact HC1.
+  - cbn. exact Hq.
+  - cbn. exact Hw.
+Qed.
+
+Lemma start_round_rets s : P (seen s) (gh s) [] (q s) -> rets_left (waiters s) (start_round s).
+Proof.
+  intros HC. unfold start_round. destruct (q s) as [|p r] eqn:Eq; [apply rets_left_nil|].
+  apply (continue_round_rets (set_event (set_q s r (unfinished s - 1)) false) [] [p]).
+  cbn [gh set_event set_q q seen]. eapply P_perm; [|exact HC]. apply perm_snoc.
+Qed.
+
+Lemma run_func_rets s ins : P (seen s) (gh s) ins (q s) -> rets_ok (waiters s) (map pid (q s)) (run_func s ins).
+Proof.
+  intros HC. unfold run_func. destruct ins as [|x r].
+  - pose proof (release_facts s) as F. pose proof (release_shape s) as [Ho Hw].
+    pose proof (release_rets s) as RR.
+    destruct (release s) as [s1 o1]. cbn [fst snd] in *. destruct F as (F1 & F2 & F3 & F4 & F5 & F6 & F7 & F8).
+    assert (HC1 : P (seen s1) (gh s1) [] (q s1)) by (rewrite F2, F8; eapply P_ext; eauto).
+    pose proof (start_round_rets s1 HC1) as Q. unfold end_round.
+    pose proof (start_round_off s1) as Ko. destruct (start_round_del s1) as [Kd _].
+    destruct (start_round s1) as [s2 o2]. unfold keeps_off in Ko. cbn [fst snd] in *.
+    apply rets_ok_app.
+    + apply RR; [exact HC|congruence|congruence].
+    + apply rets_left_ok. eapply rets_left_sub; [exact Q|]. rewrite Hw. apply wsub_filter.
+  - intros w t n [H|[]]. discriminate.
+Qed.
+
+Lemma load_one_rets s ins p : P (seen s) (gh s) ins (q s ++ [p]) -> rets_left (waiters s) (load_one s ins p).
+Proof.
+  intros HC. unfold load_one. pose proof (load_all_one p) as El.
+  destruct (p_fin p); [|apply rets_left_nil].
+  pose proof (P_load _ _ _ _ _ _ _ _ HC El) as HC1. rewrite app_nil_r in HC1.
+  apply (continue_round_rets (set_q (load_gh s (p_yields p) [pid p]) (q s) (unfinished s - 1))).
+  cbn [load_gh gh set_gh set_q q seen]. exact HC1.
+Qed.
+
+Lemma after_gather_rets s ins g :
+  P (seen s) (gh s) ins (q s ++ got_of g) -> rets_ok (waiters s) (map pid (q s)) (after_gather s ins g).
+Proof.
+  intros HC. destruct g; cbn [after_gather got_of] in *; rewrite ?app_nil_r in HC.
+  - apply rets_ok_nil.
+  - apply rets_left_ok, load_one_rets; exact HC.
+  - apply run_func_rets; exact HC.
+  - apply run_func_rets; exact HC.
 Qed.
 
 Lemma stay_post s : is_dead s = false -> InvP s -> Post (s, []).
@@ -556,6 +924,169 @@ Proof.
     specialize (Cons _ _ Q Ho). destruct (continue_round s ins []) as [s1 o1]. exact Cons.
 Qed.
 
+
+(* ---- the same, per macro step ---------------------------------------------------- *)
+Lemma on_put_rets s : is_dead s = false -> InvP s -> rets_left (waiters s) (on_put s).
+Proof.
+  intros Hd HI. specialize (HI Hd). unfold prods in HI. unfold on_put.
+  destruct (dm s) eqn:Ed; cbn [cur_ins dprods] in HI; rewrite ?app_nil_r in HI; try apply rets_left_nil.
+  - apply start_round_rets; exact HI.
+  - destruct g; try apply rets_left_nil. destruct (q s); apply rets_left_nil.
+  - destruct (q s) as [|p r] eqn:Eq; [apply rets_left_nil|].
+    apply (load_one_rets (set_q s r (unfinished s)) ins p). cbn [gh set_q q seen]. eapply P_perm; [|exact HI]. apply perm_snoc.
+Qed.
+
+Lemma do_put_rets s p k c : is_dead s = false -> InvP s -> rets_left (waiters s) (do_put s p k c).
+Proof.
+  intros Hd HI. unfold do_put. destruct (existsb (Nat.eqb p) (seen s)) eqn:Efresh; [apply rets_left_nil|].
+  match goal with |- rets_left _ (on_put ?x) => assert (Hw : waiters x = waiters s) by (destruct c; reflexivity);
+    rewrite <- Hw; apply on_put_rets end.
+  - destruct c; exact Hd.
+  - intros _. specialize (HI Hd). unfold prods in *.
+    assert (HC : P (seen s ++ [p]) (gh_tie (gh_offer (gh s) (map (fun x => (p, x)) (imm_args k)) (now s)) (tie_now s))
+                      (cur_ins (dm s)) ((q s ++ [mk_prod p k]) ++ dprods (dm s))).
+    { eapply P_perm; [|apply P_put; [exact HI|exact Efresh]]. apply perm_mid. }
+    destruct c; exact HC.
+Qed.
+
+Lemma do_feed_rets s n a : is_dead s = false -> InvP s -> rets_ok (waiters s) (map pid (q s)) (do_feed s n a).
+Proof.
+  intros Hd HI. unfold do_feed. destruct (open_here s n) eqn:Eo; cbn [negb]; [|apply rets_ok_nil].
+  specialize (HI Hd). pose proof (P_feed _ _ _ _ n a HI (open_here_ex _ _ Eo)) as HC.
+  unfold prods in HC. rewrite map_app in HC.
+  assert (Hpq : map pid (map (feed_if n a) (q s)) = map pid (q s)).
+  { rewrite map_map. apply map_ext. intros p0. apply pid_feed_if. }
+  destruct (dm s) eqn:Ed; cbn [cur_ins dprods] in HC; try apply rets_ok_nil.
+  - destruct (load_all (map (feed_if n a) ld)) as [[rem ys] fs] eqn:El.
+    rewrite map_app in HC.
+    assert (Hg : map (feed_if n a) (got_of g) = got_of (feed_get n a g)) by (destruct g; reflexivity).
+    rewrite Hg in HC.
+    assert (HC1 : P (seen s) (gh_load (gh_offer1 (gh s) (map (fun x => (n, x)) (arg_of a))) ys fs) (set_addl ys ins)
+                       ((map (feed_if n a) (q s) ++ got_of (feed_get n a g)) ++ rem)).
+    { eapply P_load; [|exact El]. eapply P_perm; [|exact HC]. rewrite app_assoc. apply perm_mid. }
+    destruct rem as [|p rem]; [|apply rets_ok_nil].
+    match goal with |- rets_ok _ _ (after_gather ?x ?i ?gg) => pose proof (after_gather_rets x i gg) as Q end.
+    cbn [load_gh gh set_gh set_q q seen waiters] in Q. rewrite Hpq in Q. apply Q. rewrite app_nil_r in HC1. exact HC1.
+  - destruct ((pid p =? n) && accepts p) eqn:E; [|apply rets_ok_nil].
+    apply rets_left_ok.
+    match goal with |- rets_left _ (load_one ?x ?i ?pp) => pose proof (load_one_rets x i pp) as Q end.
+    cbn [gh set_gh set_q q seen waiters] in Q. apply Q.
+    cbn [map] in HC. unfold feed_if in HC at 2. rewrite E in HC. exact HC.
+Qed.
+
+Definition new_waiter (s : state) (e : event) : list waiter :=
+  match e with Wait w c => [mkw w c OnEvent (seen s)] | _ => [] end.
+
+Definition rets_step (s : state) (e : event) (r : state * list obs) : Prop :=
+  forall w t n, In (WaitRet w t n) (snd r) ->
+    (exists sr w0, P (seen sr) (gh sr) [] (q sr) /\ wid w0 = w /\
+        ((q sr = [] /\ wfrom (waiters s ++ new_waiter s e) w0) \/
+         (In w0 (waiters s ++ new_waiter s e) /\ is_onevent w0 = true /\ map pid (q sr) = map pid (q s))) /\
+        g_offered (gh sr) = g_offered (gh (fst r)) /\ g_delivered (gh sr) = g_delivered (gh (fst r)))
+    \/ (exists c, e = Wait w c /\ evset s = true /\ snd r = [WaitRet w t n]).
+
+Lemma rets_ok_step s e r : rets_ok (waiters s) (map pid (q s)) r -> rets_step s e r.
+Proof.
+  intros H w t n Hin. left. destruct (H w t n Hin) as (sr & w0 & A & B & C & D & E).
+  exists sr, w0. repeat split; auto. destruct C as [[C1 C2]|(C1 & C2 & C3)].
+  - left. split; [exact C1|]. eapply wfrom_sub; [exact C2|apply wsub_app_l].
+  - right. split; [apply in_or_app; auto|auto].
+Qed.
+
+Lemma wait_core_rets s w c :
+  is_dead s = false -> InvP s -> rets_step s (Wait w c) (wait_core s w c).
+Proof.
+  intros Hd HI. pose proof (HI Hd) as HC. unfold prods in HC. unfold wait_core.
+  assert (No : forall s', rets_step s (Wait w c) (s', [])) by (intros s' w' t n []).
+  destruct (unfinished s =? 0); [|apply No].
+  assert (Imm : forall s', evset s = true -> rets_step s (Wait w c) (s', [WaitRet w (now s) (nok s)])).
+  { intros s' He w' t n [H|[]]. inversion H; subst. right. exists c. auto. }
+  destruct (dm s) eqn:Ed; cbn [cur_ins dprods] in HC; try (destruct (evset s) eqn:Ee; [apply Imm; reflexivity|apply No]).
+  - destruct g; try (destruct (evset s) eqn:Ee; [apply Imm; reflexivity|apply No]). destruct c; apply No.
+  - destruct c; [|apply No]. rewrite app_nil_r in HC.
+    match goal with |- rets_step _ _ (run_func ?x ?i) => pose proof (run_func_rets x i) as Q end.
+    cbn [gh set_waiters q seen waiters] in Q. specialize (Q HC).
+    intros w' t n Hin. left. destruct (Q w' t n Hin) as (sr & w0 & A & B & C & D & E). exists sr, w0. auto.
+Qed.
+
+Lemma do_wait_rets s w c :
+  is_dead s = false -> InvP s -> rets_step s (Wait w c) (do_wait s w c).
+Proof.
+  intros Hd HI. unfold do_wait. destruct (existsb (Nat.eqb w) (wseen s)); [intros w' t n []|].
+  set (s' := set_gh (set_wseen s (wseen s ++ [w])) (gh_tie (gh s) (tie_now s))).
+  assert (HI' : InvP s').
+  { intros _. specialize (HI Hd). unfold prods in *. cbn. eapply P_ext; [| | |exact HI]; reflexivity. }
+  pose proof (wait_core_rets s' w c Hd HI') as Q. exact Q.
+Qed.
+
+Lemma do_advance_rets s dt : is_dead s = false -> InvP s -> rets_ok (waiters s) (map pid (q s)) (do_advance s dt).
+Proof.
+  intros Hd HI. pose proof (HI Hd) as HC. unfold prods in HC. unfold do_advance.
+  destruct (dm s) as [|ins ld g|ins d|ins p|ins|] eqn:Ed; cbn [cur_ins dprods] in HC; try apply rets_ok_nil.
+  - destruct g as [d|p| |]; try apply rets_ok_nil. destruct (d <=? now s + dt)%N; apply rets_ok_nil.
+  - destruct (d <=? now s + dt)%N; [|apply rets_ok_nil].
+    match goal with |- context [run_func ?a ?b] => pose proof (run_func_rets a b) as Q; destruct (run_func a b) as [s1 o] end.
+    rewrite app_nil_r in HC. cbn [gh set_lastfire set_now q seen waiters] in Q. specialize (Q HC).
+    eapply rets_ok_final; [exact Q| |]; reflexivity.
+Qed.
+
+Lemma do_fn_end_rets s ok fc :
+  (fc = true -> fc_ok = true) -> is_dead s = false -> InvP s -> rets_ok (waiters s) (map pid (q s)) (do_fn_end s ok fc).
+Proof.
+  intros Hfc Hd HI. pose proof (HI Hd) as HC. unfold prods in HC. unfold do_fn_end.
+  destruct (dm s) eqn:Ed; try apply rets_ok_nil.
+  cbn [cur_ins dprods] in HC. rewrite app_nil_r in HC.
+  assert (NoEnd : forall s' c0 b l, rets_ok (waiters s) (map pid (q s)) (s', [FnEnd c0 b l])).
+  { intros s' c0 b l w t n [H|[]]. discriminate. }
+  destruct ok.
+  - set (s1 := set_gh (set_calls s (callno s) (S (nok s))) (gh_deliver (gh s) ins)).
+    assert (HC1 : P (seen s1) (gh s1) [] (q s1)) by (cbn; apply P_deliver; exact HC).
+    pose proof (release_facts s1) as F. pose proof (release_shape s1) as [Ho Hw]. pose proof (release_rets s1) as RR.
+    destruct (release s1) as [s2 o1]. cbn [fst snd] in *. destruct F as (F1 & F2 & F3 & F4 & F5 & F6 & F7 & F8).
+    assert (HC2 : P (seen s2) (gh s2) [] (q s2)) by (rewrite F2, F8; eapply P_ext; eauto).
+    assert (Hws : wsub (waiters s2) (waiters s)) by (rewrite Hw; apply wsub_filter).
+    destruct fc.
+    + assert (HCk : P (seen s2) (gh s2) ins (q s2)).
+      { rewrite F2, F8. eapply P_ext; [exact F4|exact F5|exact F6|]. cbn. apply P_deliver_keep; [apply Hfc; reflexivity|exact HC]. }
+      pose proof (continue_round_rets (set_event s2 false) ins []) as Q. cbn [gh set_event q seen waiters] in Q.
+      rewrite app_nil_r in Q. specialize (Q HCk).
+      pose proof (continue_round_off (set_event s2 false) ins []) as Ko.
+      destruct (continue_round_del (set_event s2 false) ins []) as [Kd _].
+      destruct (continue_round (set_event s2 false) ins []) as [s3 o2]. unfold keeps_off in Ko. cbn [fst snd gh set_event] in *.
+      apply (rets_ok_app _ _ s3 [FnEnd (callno s - 1) true ins] (o1 ++ o2)); [apply NoEnd|].
+      apply rets_ok_app.
+      * apply (RR s3 HC1); congruence.
+      * apply rets_left_ok. eapply rets_left_sub; [exact Q|exact Hws].
+    + unfold end_round. pose proof (start_round_rets s2 HC2) as Q.
+      pose proof (start_round_off s2) as Ko. destruct (start_round_del s2) as [Kd _].
+      destruct (start_round s2) as [s3 o2]. unfold keeps_off in Ko. cbn [fst snd] in *.
+      apply (rets_ok_app _ _ s3 [FnEnd (callno s - 1) true ins] (o1 ++ o2)); [apply NoEnd|].
+      apply rets_ok_app.
+      * apply (RR s3 HC1); congruence.
+      * apply rets_left_ok. eapply rets_left_sub; [exact Q|exact Hws].
+  - pose proof (continue_round_rets s ins []) as Q. rewrite app_nil_r in Q. specialize (Q HC).
+    destruct (continue_round s ins []) as [s1 o1].
+    apply (rets_ok_app _ _ s1 [FnEnd (callno s - 1) false ins] o1); [apply NoEnd|]. apply rets_left_ok. exact Q.
+Qed.
+
+Lemma step_rets s e : (e = FnOkThenFClear -> fc_ok = true) -> InvP s -> rets_step s e (step s e).
+Proof.
+  intros Hfc HI. unfold step. destruct (is_dead s) eqn:Hd; [intros w t n []|].
+  destruct e.
+  - apply rets_ok_step, rets_left_ok, do_put_rets; assumption.
+  - apply rets_ok_step, do_feed_rets; assumption.
+  - apply rets_ok_step, do_feed_rets; assumption.
+  - apply rets_ok_step, do_feed_rets; assumption.
+  - apply rets_ok_step, do_advance_rets; assumption.
+  - apply do_wait_rets; assumption.
+  - apply rets_ok_step, do_fn_end_rets; try assumption. discriminate.
+  - apply rets_ok_step, do_fn_end_rets; try assumption. discriminate.
+  - intros w t n [H|[]]. discriminate.
+  - intros w t n [].
+  - apply rets_ok_step, rets_left_ok, do_put_rets; assumption.
+  - apply rets_ok_step, do_fn_end_rets; try assumption. intros _. apply Hfc. reflexivity.
+Qed.
+
 (* every macro step preserves the invariant, and every set it hands to the
    function consists of arguments handed to the buffer *)
 Lemma step_postP s e :
@@ -615,98 +1146,6 @@ Qed.
 
 Lemma init_inv T : Inv (init T).
 Proof. intros _. constructor; cbn; try (intros ? []); try (intros ? ? []). Qed.
-
-(* ---- what is "handed to the buffer": g_offered grows only by the arguments of
-        an accepted submission or of a scripted yield accepted by an open producer ---- *)
-Definition new_offers (s : state) (e : event) : list (nat * nat) :=
-  if is_dead s then [] else
-  match e with
-  | Submit p k | FPut p k =>
-      if existsb (Nat.eqb p) (seen s) then [] else map (fun x => (p, x)) (imm_args k)
-  | PYield p x => if open_here s p then [(p, x)] else []
-  | _ => []
-  end.
-
-Definition keeps_off (s : state) (r : state * list obs) : Prop :=
-  g_offered (gh (fst r)) = g_offered (gh s).
-
-Lemma run_func0_off s ins : keeps_off s (run_func0 s ins).
-Proof. unfold keeps_off, run_func0. destruct ins; reflexivity. Qed.
-
-Lemma continue_round_off s ins ld : keeps_off s (continue_round s ins ld).
-Proof.
-  unfold keeps_off, continue_round. destruct (load_all (ld ++ q s)) as [[rem ys] fs].
-  destruct (unfinished s - length (q s) =? 0); destruct rem; cbn [andb];
-    try destruct (wants_cancel _); try reflexivity; try (rewrite run_func0_off; reflexivity).
-Qed.
-
-Lemma start_round_off s : keeps_off s (start_round s).
-Proof. unfold keeps_off, start_round. destruct (q s); [reflexivity|]. rewrite continue_round_off. reflexivity. Qed.
-
-Lemma run_func_off s ins : keeps_off s (run_func s ins).
-Proof.
-  unfold keeps_off, run_func. destruct ins; [|reflexivity].
-  destruct (release s) as [s1 o1] eqn:E. unfold end_round.
-  pose proof (start_round_off s1) as H. destruct (start_round s1) as [s2 o2]. unfold keeps_off in H; cbn [fst] in *.
-  rewrite H. unfold release in E. inversion E; reflexivity.
-Qed.
-
-Lemma load_one_off s ins p : keeps_off s (load_one s ins p).
-Proof. unfold keeps_off, load_one. destruct (p_fin p); [rewrite continue_round_off|]; reflexivity. Qed.
-
-Lemma after_gather_off s ins g : keeps_off s (after_gather s ins g).
-Proof. destruct g; cbn [after_gather]; [reflexivity|apply load_one_off|apply run_func_off|apply run_func_off]. Qed.
-
-Lemma on_put_off s : keeps_off s (on_put s).
-Proof.
-  unfold on_put. destruct (dm s); try reflexivity.
-  - apply start_round_off.
-  - destruct g; try reflexivity. destruct (q s); reflexivity.
-  - destruct (q s); [reflexivity|]. unfold keeps_off. rewrite load_one_off. reflexivity.
-Qed.
-
-Lemma offered_step s e :
-  g_offered (gh (fst (step s e))) = g_offered (gh s) ++ new_offers s e.
-Proof.
-  unfold step, new_offers. destruct (is_dead s); [rewrite app_nil_r; reflexivity|].
-  assert (K : forall r, keeps_off s r -> g_offered (gh (fst r)) = g_offered (gh s) ++ []) by (intros r H; rewrite app_nil_r; exact H).
-  destruct e.
-  - unfold do_put. destruct (existsb (Nat.eqb p) (seen s)); [rewrite app_nil_r; reflexivity|]. rewrite on_put_off. reflexivity.
-  - unfold do_feed. destruct (open_here s p); cbn [negb]; [|rewrite app_nil_r; reflexivity].
-    destruct (dm s); try reflexivity.
-    + destruct (load_all (map (feed_if p (AY x)) ld)) as [[rem ys] fs]. destruct rem; [rewrite after_gather_off|]; reflexivity.
-    + destruct ((pid p0 =? p) && accepts p0); [rewrite load_one_off|]; reflexivity.
-  - unfold do_feed. destruct (open_here s p); cbn [negb]; [|rewrite app_nil_r; reflexivity].
-    destruct (dm s); try reflexivity.
-    + destruct (load_all (map (feed_if p AF) ld)) as [[rem ys] fs]. destruct rem; [rewrite after_gather_off|]; reflexivity.
-    + destruct ((pid p0 =? p) && accepts p0); [rewrite load_one_off|]; reflexivity.
-  - unfold do_feed. destruct (open_here s p); cbn [negb]; [|rewrite app_nil_r; reflexivity].
-    destruct (dm s); try reflexivity.
-    + destruct (load_all (map (feed_if p AE) ld)) as [[rem ys] fs]. destruct rem; [rewrite after_gather_off|]; reflexivity.
-    + destruct ((pid p0 =? p) && accepts p0); [rewrite load_one_off|]; reflexivity.
-  - apply K. unfold keeps_off, do_advance. destruct (dm s); try reflexivity.
-    + destruct g; try reflexivity. destruct (d <=? now s + dt)%N; reflexivity.
-    + destruct (d <=? now s + dt)%N; [|reflexivity].
-      match goal with |- context [run_func ?a ?b] => pose proof (run_func_off a b) as H; destruct (run_func a b) end. exact H.
-  - apply K. unfold keeps_off, do_wait. destruct (existsb (Nat.eqb w) (wseen s)); [reflexivity|].
-    unfold wait_core. match goal with |- context [unfinished ?x =? 0] => destruct (unfinished x =? 0) end; [|reflexivity].
-    cbn [dm set_gh set_wseen]. destruct (dm s); try (destruct (evset _); reflexivity).
-    + destruct g; try (destruct (evset _); reflexivity). destruct cancel; reflexivity.
-    + destruct cancel; [|reflexivity]. rewrite run_func_off. reflexivity.
-  - apply K. unfold keeps_off, do_fn_end. destruct (dm s); try reflexivity.
-    match goal with |- context [release ?x] => destruct (release x) as [s2 o1] eqn:E end.
-    unfold release in E. inversion E; subst. unfold end_round.
-    match goal with |- context [start_round ?x] => pose proof (start_round_off x) as H; destruct (start_round x) end. exact H.
-  - apply K. unfold keeps_off, do_fn_end. destruct (dm s); try reflexivity.
-    pose proof (continue_round_off s ins []) as H. destruct (continue_round s ins []). exact H.
-  - rewrite app_nil_r; reflexivity.
-  - rewrite app_nil_r; reflexivity.
-  - unfold do_put. destruct (existsb (Nat.eqb p) (seen s)); [rewrite app_nil_r; reflexivity|]. rewrite on_put_off. reflexivity.
-  - apply K. unfold keeps_off, do_fn_end. destruct (dm s); try reflexivity.
-    match goal with |- context [release ?x] => destruct (release x) as [s2 o1] eqn:E end.
-    unfold release in E. inversion E; subst.
-    match goal with |- context [continue_round ?x ?y ?z] => pose proof (continue_round_off x y z) as H; destruct (continue_round x y z) end. exact H.
-Qed.
 
 (* ---- over runs --------------------------------------------------------------------- *)
 Lemma run_inv evs : forall s, Inv s -> Inv (fst (run s evs)).
